@@ -1,6 +1,6 @@
 (* C09: case vocabulary, executable model runner and property predicate.
    The model follows the code WITH the repairs F01, F02, F03, F06, F12, F17. *)
-From OIDC Require Export Lib C09_Json C09_Codec C09_Verifier C09_Handler C09_Client C09_Crypto C09_Header C09_Auth.
+From OIDC Require Export Lib C09_Json C09_Codec C09_Verifier C09_Handler C09_Client C09_Crypto C09_Header C09_Auth C09_ReqObj.
 
 (* per-case oracle tables, filled by the harness with the real functions' answers
    for every string of the document *)
@@ -64,6 +64,7 @@ Inductive input :=
 | IBearer (e : entry) (h : string) (opens : list (string * bool))
     (* GET /userinfo with the Authorization header h; opens = which strings the provider accepts as an access token *)
 | IAuth (a : ashape)                                 (* otherwise valid request with live artefacts: assertion type x assertion x Basic x private_key_jwt option *)
+| IReqObj (r : rshape)                               (* valid authorization request carrying a `request` object of that make-up *)
 | IRoute (e : entry) (class : nat) (req : string)    (* arbitrary route x method x header x body; class = generator family (>0);
                                                         req = digest of the request bytes (identifies the case; never inspected) *)
 | IClient (h : helper) (a : answer) (expect : string) (t : tables)
@@ -90,6 +91,7 @@ Definition model (i : input) : observed :=
   | IHint c _ h => OHint (hint_caller true c h)
   | IBearer _ h opens => OHandler (bearer_userinfo (fun s => s) (opens_of opens) false h)
   | IAuth a => OHandler (ahandler all_return a)
+  | IReqObj r => OHint (ro_handler true r)
   | IRoute _ _ _ => ORoute RSingle
   | IClient h a e t => OClient (call (time_of t) (lang_of t) true h a e)
   | IDevice dev tok t => OClient (device_flow (time_of t) (lang_of t) true dev tok)
@@ -111,6 +113,7 @@ Definition spec (i : input) (o : observed) : bool :=
   | IHint _ _ _, OHint r => match r with HRefused | HAccepted => true | _ => false end
   | IBearer _ _ _, OHandler h => single h
   | IAuth _, OHandler h => single h
+  | IReqObj _, OHint r => match r with HRefused | HAccepted => true | _ => false end
   | IRoute _ _ _, ORoute k => match k with RSingle => true | _ => false end
   | IClient _ a _ _, OClient c =>      (* a 200 body that is not a JSON document must come back as an error *)
       match c with
@@ -194,6 +197,8 @@ Definition path (i : input) (o : observed) : nat :=
       match o with OGrant => 60 | OResp _ _ => if count "Bearer " h =? 1 then 61 else 62 | _ => 63 end
   | IAuth a, OHandler o =>
       match o with OGrant => 64 | OResp _ _ => if sent (au_assert a) then 65 else 66 | _ => 67 end
+  | IReqObj r, OHint o =>
+      match o with HAccepted => 70 | HRefused => if ro_supported r && ro_parses r then 71 else 72 | _ => 73 end
   | IRoute _ c _, _ => 20 + c
   | IClient _ a _ _, OClient c =>
       if negb (a_ok a) then 11
